@@ -105,7 +105,10 @@ def fit_items(page):
     kinds = []
     fit_items.kinds = kinds
 
+    placed = [0]
+
     def walk(box, state):
+        run_start = None            # items placed on the page before the current run of column boxes
         for child in getattr(box, 'children', []):
             if not isinstance(child, boxes.Box):
                 continue
@@ -116,16 +119,18 @@ def fit_items(page):
             if isinstance(child, (boxes.FlexContainerBox, boxes.GridContainerBox)):
                 continue
             if child.is_column:
-                state = {'first': True}
-            if isinstance(child, boxes.TableRowBox):
-                kinds.append('row')
-                items.append((Fraction(child.position_y) + Fraction(child.height), state['first']))
-                state['first'] = False
+                # the columns of one row are parallel: each may hold "the first content of the page",
+                # but only if nothing was placed on the page before that row of columns
+                if run_start is None:
+                    run_start = placed[0]
+                walk(child, {'first': run_start == 0})
                 continue
-            if isinstance(child, boxes.LineBox):
-                kinds.append('line')
+            run_start = None
+            if isinstance(child, (boxes.TableRowBox, boxes.LineBox)):
+                kinds.append('row' if isinstance(child, boxes.TableRowBox) else 'line')
                 items.append((Fraction(child.position_y) + Fraction(child.height), state['first']))
                 state['first'] = False
+                placed[0] += 1
                 continue
             walk(child, state)
     walk(pb, {'first': True})
@@ -157,9 +162,9 @@ def render_outcome(html):
         return f'err:{type(exc).__name__}@{where}'
 
 
-def fits_cases(rng, features=None):
+def fits_cases(rng, features=None, focus=None):
     """-> list of (line, meta, tags), one per page."""
-    doc = widegen.gen(rng, features)
+    doc = widegen.gen(rng, features, focus)
     try:
         document = docs.render(doc['html'])
     except Exception as exc:  # noqa: BLE001
